@@ -322,6 +322,10 @@ Proof.
   do 2 f_equal. rewrite <- EP. unfold c1, c2. field. split; [exact HN1|]. split; [exact HN|apply one_neq_0].
 Qed.
 
+(* N = None is N = len(x) - 1 *)
+Theorem lpc_default_thm (x : list F) : lpc x None = lpc x (Some (length x - 1)%nat).
+Proof. unfold lpc. rewrite Nat.ltb_irrefl. reflexivity. Qed.
+
 (* ---------- error branches ---------- *)
 Theorem aryule_errors_thm (x : list F) (p : nat) (nm : cnorm) (allow : bool) :
   ((nm = Coeff \/ nm = NoNorm) -> aryule x p nm allow = inl YAssert)
